@@ -374,3 +374,16 @@ pub struct UploadSummary {
     pub record_count: usize,
     pub tokens_spent: Amount,
 }
+
+/// Conformance-harness constructor: a `Client` around a `Network` handle whose command channels are
+/// served by the harness (nothing is connected, no event loop is spawned).
+#[cfg(maidsafe_safe_network_verif)]
+impl Client {
+    pub fn verif_from_network(network: Network, evm_network: EvmNetwork) -> Self {
+        Self {
+            network,
+            client_event_sender: Arc::new(None),
+            evm_network,
+        }
+    }
+}
